@@ -106,7 +106,7 @@ static bool properCross(const Sg &s, const Sg &t) {
     return v.ax > hx0 + 1e-9 && v.ax < hx1 - 1e-9 && h.ay > vy0 + 1e-9 && h.ay < vy1 - 1e-9;
 }
 // planarise an already routed graph and judge the result; returns a non-empty reason on a violation
-static string planarise_and_judge(Graph_SP g) {
+static string planarise_and_judge(Graph_SP g, bool drawingClauses = true) {
     string why;
     vector<vector<Sg>> segs; for (auto &p : g->getEdgeLookup()) { vector<Avoid::Point> r = p.second->getRoute(); vector<Sg> v; for (size_t k = 1; k < r.size(); k++) v.push_back({r[k - 1].x, r[k - 1].y, r[k].x, r[k].y}); segs.push_back(v); }
     bool cr = false; for (size_t a = 0; a < segs.size(); a++) for (size_t b = a + 1; b < segs.size(); b++) for (auto &x : segs[a]) for (auto &y : segs[b]) if (properCross(x, y)) cr = true;
@@ -122,7 +122,7 @@ static string planarise_and_judge(Graph_SP g) {
     for (size_t a = 0; a < qs.size(); a++) for (size_t b = a + 1; b < qs.size(); b++) for (auto &x : qs[a]) for (auto &y : qs[b]) if (properCross(x, y)) why = "two edges still cross";
     // ... the drawing itself: no new node lies
     // strictly inside an edge it does not end, and every NEW node lies on an original route (a bend) or on two of them (a crossing)
-    if (why.empty()) {
+    if (why.empty() && drawingClauses) {
         auto onOrig = [&](double x, double y) { int c = 0; for (auto &v : segs) { bool on = false; for (auto &g2 : v) if (fabs((g2.bx - g2.ax) * (y - g2.ay) - (x - g2.ax) * (g2.by - g2.ay)) < 1e-6 && x >= min(g2.ax, g2.bx) - 1e-6 && x <= max(g2.ax, g2.bx) + 1e-6 && y >= min(g2.ay, g2.by) - 1e-6 && y <= max(g2.ay, g2.by) + 1e-6) on = true; if (on) c++; } return c; };
         for (auto &p : Q->getNodeLookup()) if (!orig.count(p.first)) { Avoid::Point c = p.second->getCentre(); if (onOrig(c.x, c.y) < 1) { why = mcx::fmt("new node %u at (%g,%g) lies on no original route", p.first, c.x, c.y); break; } }
         if (why.empty()) for (auto &p : Q->getEdgeLookup()) { Node_SP a = Q->getNodeLookup().at(p.second->getEndIds().first), b = Q->getNodeLookup().at(p.second->getEndIds().second); Avoid::Point ca = a->getCentre(), cb = b->getCentre();
@@ -135,7 +135,7 @@ static string planarise_and_judge(Graph_SP g) {
         map<id_type, vector<id_type>> adj; for (auto &p : Q->getEdgeLookup()) { auto e = p.second->getEndIds(); adj[e.first].push_back(e.second); adj[e.second].push_back(e.first); }
         for (auto &oe : origAdj) {
             set<id_type> seen; vector<id_type> st{oe.first}; bool found = false;
-            while (!st.empty() && !found) { id_type u = st.back(); st.pop_back(); if (!seen.insert(u).second) continue; for (auto w : adj[u]) { if (w == oe.second) { found = true; break; } if (!orig.count(w)) st.push_back(w); } }
+            while (!st.empty() && !found) { id_type u = st.back(); st.pop_back(); if (!seen.insert(u).second) continue; for (auto w : adj[u]) { if (w == oe.second) { found = true; break; } if (!orig.count(w) || !drawingClauses) st.push_back(w); } }   // (merged near-collinear lines: an original node may lie ON the merged line of another edge, so the chain may pass it)
             if (!found) { why = mcx::fmt("former neighbours %u,%u no longer connected through new nodes", oe.first, oe.second); break; }
         }
     }
@@ -198,6 +198,36 @@ static void grid_planarise_phase(int NH, int NV) {
         ctx.done_case();
     } while (mcx::odo_next(idx, (int)ext.size()));
 }
+// Near-collinear lines: the planariser merges route segments whose coordinates agree to within half a unit (a running mean per group).  Vertical
+// connectors on x = 100, 100.4, 100.6 (pairwise within / just outside that tolerance), each absent or with one of three extents, optionally four more
+// verticals further left, and up to three horizontal connectors that cross them or end between them.  Only the property's own clauses are judged here
+// (nodes kept, no two edges cross, former neighbours still joined -- through any nodes: when two overlapping near-collinear connectors are merged onto one
+// line the end node of the shorter one lies ON the longer one): the merged lines are moved by up to the tolerance, so new nodes need not lie on the routes as given.
+static void near_collinear_planarise_phase() {
+    ctx.phase("planarise near-collinear verticals x in {100, 100.4, 100.6} (x every extent) with nothing / 4 verticals / a straight column of 4 collinear edges to their left and up to three horizontals");
+    static const double NX[3] = {100, 100.4, 100.6}; static const double VE[4][2] = {{0, 0}, {50, 250}, {150, 350}, {50, 350}}; static const double HY[3] = {100, 200, 300}; static const double HE[3][2] = {{0, 0}, {10, 150}, {90, 150}};
+    for (int left = 0; left < 3; left++) for (int vm = 1; vm < 64; vm++) for (int hm = 1; hm < 27; hm++) {
+        if (ctx.stopped()) return; if (!ctx.next()) continue;
+        ostringstream t, e; int n = 0; string desc = mcx::fmt("planarise near-collinear: %s on the left;", left == 0 ? "nothing" : left == 1 ? "4 verticals" : "a straight column of 4 edges (a path of 5 nodes on x=20)");
+        auto add = [&](double x0, double y0, double x1, double y1) { t << n << " " << x0 << " " << y0 << " 4 4\n" << n + 1 << " " << x1 << " " << y1 << " 4 4\n"; e << n << " " << n + 1 << " " << x0 << " " << y0 << " " << x1 << " " << y1 << "\n"; n += 2; };
+        if (left == 1) for (double x : {20.0, 40.0, 60.0, 80.0}) add(x, 30, x, 370);
+        if (left == 2) { for (int i = 0; i < 5; i++) t << n + i << " 20 " << 30 + 80 * i << " 4 4\n"; for (int i = 0; i < 4; i++) e << n + i << " " << n + i + 1 << " 20 " << 30 + 80 * i << " 20 " << 30 + 80 * (i + 1) << "\n"; n += 5; }
+        int v = vm; for (int k = 0; k < 3; k++) { int ex = v % 4; v /= 4; if (ex) { add(NX[k], VE[ex][0], NX[k], VE[ex][1]); desc += mcx::fmt(" x=%g[%g..%g]", NX[k], VE[ex][0], VE[ex][1]); } }
+        int h = hm; for (int k = 0; k < 3; k++) { int ex = h % 3; h /= 3; if (ex) { add(HE[ex][0], HY[k], HE[ex][1], HY[k]); desc += mcx::fmt(" y=%g[%g..%g]", HY[k], HE[ex][0], HE[ex][1]); } }
+        ctx.count("states"); ctx.sample(desc, 1); string why;
+        try { string str = t.str() + "#\n" + e.str(); Graph_SP g = buildGraphFromTglf(str); why = planarise_and_judge(g, false); }
+        catch (std::exception &ex) { why = std::string("planarise threw ") + ex.what(); } catch (vpsc::CriticalFailure &f) { ctx.library_abort(f.what(), desc); ctx.done_case(); continue; }
+        // input class of KF-C19-1: after the planariser's own grouping (sorted coordinates, a coordinate joins the current group when it is within 0.5 of the group's
+        // running mean) two DIFFERENT groups of verticals are still within 0.8 of each other and two of their segments overlap in y: the crossing sweep puts
+        // them into one x-part (tolerance 0.8), where a single 'open vertical' pointer is kept, and misses the crossings of one of them
+        vector<string> kc; { vector<array<double, 3>> vs; int v2 = vm; for (int k = 0; k < 3; k++) { int ex = v2 % 4; v2 /= 4; if (ex) vs.push_back({{NX[k], VE[ex][0], VE[ex][1]}}); }
+            vector<int> grp(vs.size()); double mean = 0; int cntg = 0, gi = -1; for (size_t i = 0; i < vs.size(); i++) { if (gi < 0 || vs[i][0] - mean > 0.5) { gi++; mean = vs[i][0]; cntg = 1; } else { mean = (mean * cntg + vs[i][0]) / (cntg + 1); cntg++; } grp[i] = gi; }
+            vector<double> gm(gi + 1, 0), gc(gi + 1, 0); for (size_t i = 0; i < vs.size(); i++) { gm[grp[i]] += vs[i][0]; gc[grp[i]]++; } for (int g2 = 0; g2 <= gi; g2++) gm[g2] /= gc[g2];
+            for (size_t i = 0; i < vs.size(); i++) for (size_t j = i + 1; j < vs.size(); j++) if (grp[i] != grp[j] && fabs(gm[grp[i]] - gm[grp[j]]) <= 0.8 && min(vs[i][2], vs[j][2]) > max(vs[i][1], vs[j][1])) { if (kc.empty()) kc.push_back("parallel_segments_within_0.8_left_unmerged"); } }
+        if (!why.empty()) ctx.violation("planarise", kc, desc, why);
+        ctx.done_case();
+    }
+}
 template <class F> static void all_graphs(int n, bool connectedOnly, F f) {
     EL all; for (int i = 0; i < n; i++) for (int j = i + 1; j < n; j++) all.push_back({i, j});
     for (unsigned mask = 0; mask < (1u << all.size()) && !ctx.stopped(); mask++) {
@@ -240,7 +270,7 @@ int main(int argc, char **argv) {
         ctx.phase(mcx::fmt("planarise: all labelled leafless connected graphs n=%d routed by LeaflessOrthoRouter", n));
         all_graphs(n, true, [&](const EL &es) { vector<int> deg(n, 0); for (auto &e : es) { deg[e.first]++; deg[e.second]++; } for (int d : deg) if (d < 2) return; if (!ctx.next()) return; ctx.count("states"); ctx.sample(gstr(n, es)); check_planarise(n, es); ctx.done_case(); });
     }
-    grid_planarise_phase(2, 2); grid_planarise_phase(2, 3); if (T) grid_planarise_phase(3, 3);
+        near_collinear_planarise_phase(); grid_planarise_phase(2, 2); grid_planarise_phase(2, 3); if (T) grid_planarise_phase(3, 3);
     replanarise_phase(0); if (T) replanarise_phase(1);
     return ctx.finish();
 }
